@@ -1241,6 +1241,38 @@ def send_or_wait_outcomes(chk, P, prefix):
         return True, "", rets
     chk.ob("%s.R3:send_or_wait-outcomes" % prefix, "Ok only when a try_send succeeded; the item is handed back once elapsed() >= timeout", f)
 
+    def handed_back_item_kept():
+        """A failed try_send returns the item inside its error.  In send_or_wait every attempt's error is therefore *moved on* - into the variable
+        the next attempt / the final Err is built from, or out through `?` / return - never just matched and dropped (`Err(_) => continue`):
+        that drop is the item, and the caller later gets an error with nothing in it."""
+        b = P.body(S + "send_or_wait::{closure#0}")
+        ts = [c for c in b.calls(normal_only=True) if c.callee.get("name") == "try_send"]
+        if not ts:
+            raise mir.AnchorMissing("try_send in send_or_wait")
+        def moves_out_of(l):
+            def is_move(op):
+                return isinstance(op, dict) and "m" in op and op["m"].get("l") == l
+            for bb, j, st in b.statements(normal_only=True):
+                if st["k"] == "assign" and any(is_move(o) for o in b.rvalue_operands(st["rv"])):
+                    return True
+            for blk in b.blocks:
+                if blk.get("cleanup"):
+                    continue
+                t = blk["term"]
+                if t["k"] == "call" and any(is_move(a) for a in t["args"]):
+                    return True
+            return False
+        for c in ts:
+            if c.dest is None or "p" in c.dest:
+                continue
+            if c.dest["l"] == 0:
+                continue  # returned as it is
+            if not moves_out_of(c.dest["l"]):
+                return False, ("the outcome of the try_send at %s is only inspected, never moved on: on its Err edge the error - and the item it hands back - is "
+                               "dropped, so the item is neither enqueued nor returned to the caller when the timeout expires" % c.loc), [], c.loc
+        return True, "", [c.loc for c in ts]
+    chk.ob("%s.R3:handed-back-item-kept" % prefix, "the error (and item) of every failed attempt in send_or_wait is carried on, never dropped", handed_back_item_kept)
+
     def clocks():
         ev = []
         for k in ("emit_batcher::sync::blocking_send", "emit_batcher::tokio::blocking_send", "emit_batcher::tokio::send"):
